@@ -99,6 +99,14 @@ class ThreadSafeLRUCache(LRUCache[_KT, _VT]):
         with self._lock:
             return super().__contains__(key)
 
+    def __len__(self) -> int:
+        with self._lock:
+            return super().__len__()
+
+    def __iter__(self) -> Iterator[_KT]:
+        with self._lock:
+            return iter(list(super().__iter__()))
+
     @overload
     def get(self, key: _KT) -> Optional[_VT]: ...
     @overload
@@ -116,14 +124,14 @@ class ThreadSafeLRUCache(LRUCache[_KT, _VT]):
     def keys(self) -> Iterator[_KT]:
         """Return an iterator over this cache's keys."""
         with self._lock:
-            return super().keys()
+            return iter(list(super().keys()))
 
     def values(self) -> Iterator[_VT]:
         """Return an iterator over this cache's values."""
         with self._lock:
-            return super().values()
+            return iter(list(super().values()))
 
     def items(self) -> Iterator[tuple[_KT, _VT]]:
         """Return an iterator over this cache's key/value pairs."""
         with self._lock:
-            return super().items()
+            return iter(list(super().items()))
